@@ -71,7 +71,8 @@ class Report:
         for i in listed:
             k = known_keys[i.full_key()]
             lines.append(f"KNOWN-FINDING: property={self.prop} {i.rule} {i.loc} {k.get('what', i.message)}")
-        out_dir = os.path.join(VERIF, "out", "replay")
+        scratch = bool(os.environ.get("VERIF_NO_EVIDENCE"))  # analysing a scratch copy: leave evidence/ and out/ alone
+        out_dir = os.path.join(VERIF, "out", "replay") if not scratch else os.path.join("/tmp", f"verif_scratch_replay_{os.getpid()}")
         os.makedirs(out_dir, exist_ok=True)
         for old in os.listdir(out_dir):
             if old.startswith(f"{self.prop}-") and old.endswith(".json"):
@@ -167,11 +168,16 @@ class Report:
             "wall_s": round(wall, 3),
             "violations": len(unlisted),
         }
-        ev_dir = os.path.join(VERIF, "evidence")
-        os.makedirs(ev_dir, exist_ok=True)
-        with open(os.path.join(ev_dir, f"{self.prop}.json"), "w") as f:
-            json.dump(evidence, f, indent=1, default=str)
-            f.write("\n")
+        if not scratch:
+            ev_dir = os.path.join(VERIF, "evidence")
+            os.makedirs(ev_dir, exist_ok=True)
+            with open(os.path.join(ev_dir, f"{self.prop}.json"), "w") as f:
+                json.dump(evidence, f, indent=1, default=str)
+                f.write("\n")
+        else:
+            import shutil
+
+            shutil.rmtree(out_dir, ignore_errors=True)
 
         print(
             f"[{self.prop}] tier={self.tier} rules={len(rules)} obligations={len(self.instances)} hold={n_ok} "
